@@ -1235,7 +1235,8 @@ def c10(run):
                   'parts': 'symbolic small integers or finite floats where stated in the harness, concrete '
                            '(1, 1/2, 1/4) for the third-order Bessel / spherical Bessel harnesses',
                   'outside': 'arbitrary floating-point neighbours of the points (only the listed ones); '
-                             'types beyond Dual, Dual2, Dual3, HyperDual, HyperHyperDual, DualVec<2> over f64'}
+                             'types beyond Dual, Dual2, Dual3, HyperDual, HyperHyperDual, DualVec<2> over f64 '
+                             '(and Dual<Dual64> for atan2 on the axes)'}
     run.assumptions += ['libm functions are uninterpreted functions knowing only exact IEEE facts at the visited '
                         'points (sin(+-0)=+-0, cos(0)=1, exp(0)=1, exp_m1(0)=0, ln_1p(0)=0, atan(0)=0, '
                         'powf/powi special cases at a zero base or zero exponent)']
@@ -1801,11 +1802,148 @@ def _alg_add(a, b):
     return [ir.add(x if x is not None else ZERO, y if y is not None else ZERO) for x, y in zip(a, b)]
 
 
+def _c12_jacobi(run, case):
+    """jacobi_eigenvalue on a symmetric n x n matrix with dual entries: on every feasible path of
+    the routine the returned (lambda, V) satisfy A V = V diag(lambda) and V^T V = I in every part
+    (exact real arithmetic), and the eigenvalues' real parts ascend."""
+    run.cases += 1
+    k = case['kind'].split(';')
+    n = int(k[1])
+    run.functions.add(f'linalg::jacobi_eigenvalue (n={n}, max_iter={k[2]})')
+    run.instantiations.add(f"jacobi_eigenvalue<{case['shape']}<S>,S>")
+    if not check_validation(run, case):
+        return
+    if case.get('truncated'):
+        run.inconclusive.append({'case': case_id(case), 'reason': 'path enumeration truncated'})
+        return
+    terms = ir.dag_to_terms(case['dag'])
+    levels = case['levels']
+    nleaf = len(jets.leaves_of(tuple(levels))) if levels else 1
+    paths_names = case['paths_names'] or ['']
+
+    def in_leaves(nm):
+        if not levels:
+            return [ir.var(nm)]
+        return [ir.var(nm + ('.' + p if p else '')) for p in paths_names]
+    A = [[in_leaves(f'A{min(i, j)}{max(i, j)}') for j in range(n)] for i in range(n)]
+    revars = set(A[i][j][0][1] for i in range(n) for j in range(n))
+    z = lambda l: [t if t is not None else ZERO for t in l]
+    role = 'C12:jacobi'
+    first = True
+    # native replay of an identity: the same left-hand side over fresh variables standing for the
+    # native run's outputs (V, lambda) and inputs (A), evaluated exactly at the native values
+    lnames = paths_names if levels else ['']
+    fresh = lambda nm: [ir.var(f'@{nm}' + ('.' + p if p else '')) for p in lnames]
+    Vs = [[fresh(f'V{i}{j}') for j in range(n)] for i in range(n)]
+    ls = [fresh(f'l{i}') for i in range(n)]
+    sym_lhs = {}
+    for i in range(n):
+        for j in range(n):
+            acc = [ZERO] * nleaf
+            acc2 = [ZERO] * nleaf
+            for kk in range(n):
+                acc = _alg_add(acc, _alg_mul(levels, A[i][kk], Vs[kk][j]))
+                acc2 = _alg_add(acc2, _alg_mul(levels, Vs[kk][i], Vs[kk][j]))
+            rr = _alg_mul(levels, Vs[i][j], ls[j])
+            for li in range(nleaf):
+                sym_lhs[f'AV{i}{j}#{li}'] = (acc[li], rr[li])
+                sym_lhs[f'VtV{i}{j}#{li}'] = (acc2[li], (ONE if i == j else ZERO) if li == 0 else ZERO)
+
+    def native_lhs(res, base, fa):
+        import mpmath
+        env = {kk: Fraction(v) for kk, v in fa.items()}
+        for (nm, leaves) in res['outputs']:
+            for pth, v in zip(lnames, leaves):
+                env[f'@{nm}' + ('.' + pth if pth else '')] = Fraction(float(v)) if v is not None else Fraction(0)
+        try:
+            cache = {}
+            return (float(ir.mp_eval(sym_lhs[base][0], env, cache)), float(ir.mp_eval(sym_lhs[base][1], env, cache)))
+        except (ValueError, OverflowError, ZeroDivisionError):
+            return (float('nan'), float('nan'))
+    case['_native_lhs'] = native_lhs
+    offdiag_re = [A[i][j][0][1] for i in range(n) for j in range(i + 1, n)]
+    for path in case['paths']:
+        res = path['result']
+        if 'panic' in res:
+            pctx = PathCtx(run, case, path, terms, [])
+            run.paths += 1
+            if decide_infeasible(run, case, pctx, 'panic path: ' + res['panic'][:60], role):
+                run.infeasible_paths += 1
+            continue
+        outs = {nm: z(algebra.leaves_terms(terms, l)) for (nm, l) in res['outputs']}
+        lam = [outs[f'l{i}'] for i in range(n)]
+        V = [[outs[f'V{i}{j}'] for j in range(n)] for i in range(n)]
+        obs = []
+        for i in range(n):
+            for j in range(n):
+                acc = [ZERO] * nleaf
+                for kk in range(n):
+                    acc = _alg_add(acc, _alg_mul(levels, A[i][kk], V[kk][j]))
+                rhs = _alg_mul(levels, V[i][j], lam[j])
+                for li in range(nleaf):
+                    obs.append((f'AV{i}{j}#{li}', acc[li], rhs[li]))       # (A V)_ij == V_ij lambda_j
+                acc = [ZERO] * nleaf
+                for kk in range(n):
+                    acc = _alg_add(acc, _alg_mul(levels, V[kk][i], V[kk][j]))
+                for li in range(nleaf):
+                    obs.append((f'VtV{i}{j}#{li}', acc[li], (ONE if i == j else ZERO) if li == 0 else ZERO))
+        pctx = PathCtx(run, case, path, terms, [])
+        nv0 = len(run.violations)
+        r = decide_path(run, case, pctx, obs, role, revars=revars, vacuity=first)
+        for v in run.violations[nv0:]:
+            # the specific failing input class of the recorded finding: every off-diagonal entry has
+            # real part exactly 0 (the routine stops on the real parts) but a non-zero derivative part
+            try:
+                if all(float(v['inputs'][nm]) == 0.0 for nm in offdiag_re):
+                    v['role'] = 'C12:jacobi:offdiagonal-real-parts-zero'
+            except (KeyError, ValueError):
+                pass
+        if r == 'infeasible':
+            continue
+        first = False
+        # ascending order of the real parts
+        for i in range(n - 1):
+            run.obligations += 1
+            pc = PathCtx(run, case, path, terms, [('lt', lam[i + 1][0], lam[i][0])])
+            s = pc.base_solver()
+            rr = run.check(s)
+            if rr == z3.unsat:
+                run.discharged += 1
+            elif rr == z3.unknown:
+                run.inconclusive.append({'case': case_id(case), 'obligation': f'l{i} <= l{i + 1}',
+                                         'reason': 'solver unknown/timeout'})
+            else:
+                names = pc.var_names()
+                fa = {kk: float(v) for kk, v in model_assignment(s.model(), names).items()}
+                shape, kind, pres = spec_of(case)
+                nat = native_run(shape, kind, pres, fa, 'f64')
+                d = {'case': case_id(case), 'obligation': f'eigenvalues ascending: l{i} <= l{i + 1}', 'role': role,
+                     'inputs': {kk: repr(v) for kk, v in fa.items()}}
+                try:
+                    o = dict((nm, l) for (nm, l) in nat['outputs'])
+                    a_, b_ = float(o[f'l{i}'][0]), float(o[f'l{i + 1}'][0])
+                    d['native_f64'] = [a_, b_]
+                    if a_ > b_:
+                        run.violations.append(d)
+                        continue
+                except Exception as e:   # noqa: BLE001
+                    d['native_error'] = repr(e)
+                d['reason'] = 'solver model did not reproduce natively'
+                run.inconclusive.append(d)
+    if len(run.samples) < 4:
+        run.sample({'case': case_id(case), 'paths': len(case['paths']),
+                    'obligations': 'A (x) V == V (x) diag(lambda) and V^T (x) V == I in the truncated Taylor '
+                                   'algebra, every part, on every feasible path of the routine; lambda ascending'})
+
+
 def _c12_chunk(run, specs):
     n3 = any(s[1].startswith('lu;3') for s in specs)
     cases = trace(specs, 'c12', run.seed, max_paths=4096 if run.tier == 'thorough' else 600,
                   random_paths=(60 if run.tier == 'quick' else 600) if n3 else None)
     for case in cases:
+        if case['kind'].startswith('jac;'):
+            _c12_jacobi(run, case)
+            continue
         run.cases += 1
         k = case['kind'].split(';')
         n, op = int(k[1]), k[2]
@@ -1917,6 +2055,19 @@ def _c12_chunk(run, specs):
                         'singular_paths': 'path condition entails det(re A) == 0'})
 
 
+def _c12_jac_chunk(run, item):
+    (spec, i, m) = item
+    cases = trace([spec], 'c12j', run.seed, max_paths=4096)
+    case = cases[0]
+    if case.get('truncated'):
+        run.inconclusive.append({'case': case_id(case), 'reason': 'path enumeration truncated'})
+        return
+    case['paths'] = case['paths'][i::m]   # every worker takes a slice of the routine's paths
+    _c12_jacobi(run, case)
+    if i:
+        run.cases -= 1
+
+
 def c12(run):
     specs = []
     shapes = ['Real', 'Dual', 'Dual2'] if run.tier == 'quick' else ['Real', 'Dual', 'Dual2', 'HyperDual', 'DualVec2']
@@ -1932,22 +2083,37 @@ def c12(run):
             specs.append(('Dual', f'lu;3;{op}', 0))
     run.timeout_ms = 8000 if run.tier == 'quick' else 60000
     parallel(run, _c12_chunk, [[s] for s in specs], chunk_timeout=600 if run.tier == 'quick' else 7200)
+    # jacobi_eigenvalue, n = 2: every path of the routine (sign cases of abs, rotation branches,
+    # early exit, final sort); the paths are spread over the workers
+    jshapes = ['Real', 'Dual'] if run.tier == 'quick' else ['Real', 'Dual', 'Dual2']
+    items = []
+    for sh in jshapes:
+        spec = (sh, 'jac;2;3', (1 << (ngroups(sh) * 3)) - 1)
+        m = 1 if sh == 'Real' else (28 if sh == 'Dual' else 56)
+        items += [(spec, i, m) for i in range(m)]
+    parallel(run, _c12_jac_chunk, items, chunk_timeout=900 if run.tier == 'quick' else 3600)
     drop_undecided(run, 0.1)
     run.bounds = {'sizes': 'n = 1, 2 complete (all pivoting paths); n = 3: seeded random sample of pivoting paths '
                            '(60 quick / 600 thorough scripts, plain entries; Dual entries in thorough)',
                   'entry types': ', '.join(shapes),
-                  'not applicable inside C12': 'jacobi_eigenvalue, smallest_ev, nalgebra symmetric_eigen (iteration '
-                                               'to convergence on symbolic data has no finite unwinding; rotation '
-                                               'formulas nest sqrt/recip too deep); nalgebra lu/try_inverse; '
-                                               'sizes 4..6; the conditioning-scaled tolerance (real arithmetic '
-                                               'is exact here)'}
+                  'jacobi_eigenvalue': 'n = 2 (one rotation diagonalises exactly, so the routine terminates on '
+                                       'every real input within 2 sweeps; max_iter = 3), all paths, entries '
+                                       + ', '.join(jshapes) + '; the two float-absorption shortcuts (term == |h|, '
+                                       'and the it_num > 4 annihilation) are unreachable in exact real arithmetic '
+                                       'and therefore outside the claim',
+                  'not applicable inside C12': 'jacobi_eigenvalue for n >= 3 (iteration to convergence on symbolic '
+                                               'data has no finite unwinding), smallest_ev beyond what n = 2 gives, '
+                                               'nalgebra symmetric_eigen / lu / try_inverse; sizes 4..6; the '
+                                               'conditioning-scaled tolerance (real arithmetic is exact here)'}
 
 
 EXPLAIN['C12'] = ('the crate\'s LU::new / solve / determinant / inverse are executed over dual entries at the '
                   'symbolic scalar, every pivoting path enumerated; z3 decides the defining identities A x = b, '
                   'A A^-1 = I and det = Leibniz polynomial in the truncated Taylor algebra part by part, for all '
                   'real matrices on the path; a singular report must entail det(re A) = 0; every pivot division '
-                  'is shown non-zero (definedness)')
+                  'is shown non-zero (definedness). jacobi_eigenvalue (n = 2) is executed the same way: on every '
+                  'feasible path z3 decides A V = V diag(lambda) and V^T V = I in every part and the ascending '
+                  'order of the real parts; a model is replayed by recomputing the identity from the native outputs')
 
 
 def c16(run):
@@ -1968,7 +2134,8 @@ def c18(run):
     kani_run.run_group(run, 'C18')
     run.bounds = {'types': 'Dual, Dual2, Dual3, HyperDual, HyperHyperDual (thorough), Dual<Dual>; DualVec<1>, '
                            'Dual2Vec<1>, HyperDualVec<1,1> with every presence pattern',
-                  'leaves': 'token leaves whose Display writes one symbolic ASCII letter',
+                  'leaves': 'token leaves whose Display writes one symbolic ASCII character: a letter or the '
+                            'token of the leaf type\'s zero element',
                   'outside': 'the bracketed layout of vector parts with >= 2 components and nalgebra\'s matrix '
                              'layout (CBMC ran out of memory on the String join path); float-to-text round trip '
                              'of the std leaf Display (assumed); Python __repr__'}
